@@ -181,6 +181,86 @@ Section Gen.
       apply andb_true_iff in E2. destruct E2 as [E2 E3]. apply Nat.eqb_eq in E2, E3. subst. auto.
     Qed.
   End Two.
+
+  (* ---- the same with synchronous pipes ---- *)
+  Lemma slocals_run q : forall todo done, Forall head_local todo ->
+    gpath net nat (sstep L M) {| procs := done ++ todo; qs := q |} (length todo) {| procs := done ++ map (adv L M) todo; qs := q |}.
+  Proof.
+    induction todo as [|x todo IH]; intros done H; simpl.
+    - constructor.
+    - inversion H as [|x0 l0 (f & r & Hx) Hrest]; subst.
+      eapply gpS with (l := length done) (t := {| procs := done ++ adv L M x :: todo; qs := q |}).
+      + unfold sstep, sfire. simpl. rewrite nth_error_mid, Hx, updp_app. unfold adv. rewrite Hx. reflexivity.
+      + specialize (IH (done ++ [adv L M x]) Hrest). rewrite <- !app_assoc in IH. simpl in IH. exact IH.
+  Qed.
+
+  Lemma slocals_run_all q ps : Forall head_local ps ->
+    gpath net nat (sstep L M) {| procs := ps; qs := q |} (length ps) {| procs := map (adv L M) ps; qs := q |}.
+  Proof. intros H. exact (slocals_run q ps [] H). Qed.
+
+  Section TwoSync.
+    Variables (ps0 : list proc) (q0 : queues M) (s m : nat).
+    Hypothesis Hsm : s <> m.
+    Hypothesis Hs : s < length ps0.
+    Hypothesis Hm : m < length ps0.
+
+    Definition sst (X Y : proc) : net := {| procs := updp (updp ps0 s X) m Y; qs := q0 |}.
+
+    Lemma sst_s X Y : nth_error (procs (sst X Y)) s = Some X.
+    Proof. simpl. rewrite nth_updp_other by (intro E; apply Hsm; auto). apply nth_updp_same. exact Hs. Qed.
+    Lemma sst_m X Y : nth_error (procs (sst X Y)) m = Some Y.
+    Proof. simpl. apply nth_updp_same. rewrite updp_length. exact Hm. Qed.
+
+    Lemma sst_set_s X Y X' : updp (updp (updp ps0 s X) m Y) s X' = updp (updp ps0 s X') m Y.
+    Proof. rewrite (updp_comm L M (updp ps0 s X) m s Y X') by (intro E; apply Hsm; auto). rewrite updp_twice. reflexivity. Qed.
+
+    Lemma ss_local X Y f r : prog X = ALocal f :: r -> sstep L M (sst X Y) s (sst {| loc := f (loc X); prog := r |} Y).
+    Proof. intros HX. unfold sstep, sfire. rewrite sst_s, HX. unfold sst. simpl. rewrite sst_set_s. reflexivity. Qed.
+    Lemma sm_local X Y f r : prog Y = ALocal f :: r -> sstep L M (sst X Y) m (sst X {| loc := f (loc Y); prog := r |}).
+    Proof. intros HY. unfold sstep, sfire. rewrite sst_m, HY. unfold sst. simpl. rewrite updp_twice. reflexivity. Qed.
+
+    (* s sends, m receives: one joint step *)
+    Lemma ss_comm X Y g r h r' : prog X = ASend m g :: r -> prog Y = ARecv s h :: r' ->
+      sstep L M (sst X Y) s (sst {| loc := loc X; prog := r |} {| loc := h (loc Y) (g (loc X)); prog := r' |}).
+    Proof.
+      intros HX HY. unfold sstep, sfire. rewrite sst_s, HX.
+      destruct (Nat.eqb_spec s m) as [E|_]; [exfalso; auto|].
+      rewrite sst_m, HY, Nat.eqb_refl. unfold sst. simpl.
+      rewrite sst_set_s, updp_twice. reflexivity.
+    Qed.
+    (* m sends, s receives *)
+    Lemma sm_comm X Y g r h r' : prog Y = ASend s g :: r -> prog X = ARecv m h :: r' ->
+      sstep L M (sst X Y) m (sst {| loc := h (loc X) (g (loc Y)); prog := r' |} {| loc := loc Y; prog := r |}).
+    Proof.
+      intros HY HX. unfold sstep, sfire. rewrite sst_m, HY.
+      destruct (Nat.eqb_spec m s) as [E|_]; [exfalso; auto|].
+      rewrite sst_s, HX, Nat.eqb_refl. unfold sst. simpl.
+      rewrite updp_twice, sst_set_s. reflexivity.
+    Qed.
+
+    Lemma spingpong X Y g1 h2 g3 h4 rs h1 g2 h3 f4 g5 f6 rm :
+      prog X = [ASend m g1; ARecv m h2; ASend m g3; ARecv m h4] ++ rs ->
+      prog Y = [ARecv s h1; ASend s g2; ARecv s h3; ALocal f4; ASend s g5; ALocal f6] ++ rm ->
+      let a := loc X in let b := loc Y in
+      let b1 := h1 b (g1 a) in
+      let a2 := h2 a (g2 b1) in
+      let b3 := h3 b1 (g3 a2) in
+      let b4 := f4 b3 in
+      gpath net nat (sstep L M) (sst X Y) 6 (sst {| loc := h4 a2 (g5 b4); prog := rs |} {| loc := f6 b4; prog := rm |}).
+    Proof.
+      intros HX HY a b b1 a2 b3 b4. simpl in HX, HY.
+      eapply gpS; [apply ss_comm; [exact HX|exact HY]|].
+      eapply gpS; [apply sm_comm; reflexivity|].
+      eapply gpS; [apply ss_comm; reflexivity|].
+      eapply gpS; [apply sm_local; reflexivity|].
+      eapply gpS; [apply sm_comm; reflexivity|].
+      eapply gpS; [apply sm_local; reflexivity|].
+      simpl. constructor.
+    Qed.
+
+    Lemma sst_start X Y : nth_error ps0 s = Some X -> nth_error ps0 m = Some Y -> sst X Y = {| procs := ps0; qs := q0 |}.
+    Proof. intros HX HY. unfold sst. f_equal. rewrite (updp_id ps0 s X HX). apply updp_id. exact HY. Qed.
+  End TwoSync.
 End Gen.
 
 (* ------------------------------------------------------------------------------------------------ *)
@@ -197,14 +277,11 @@ Section Run.
   Variable sched : list row.
   Variable I : nat.
   Variable exchange : bool.
-  Variable cap : option nat.                     (* queue capacity: any, as long as a queue holds one message *)
-  Hypothesis cap1 : room (@msg N St) cap [] = true.
 
   Notation lst := (@lst N St G).
   Notation msg := (@msg N St).
   Notation proc := (proc lst msg).
   Notation net := (net lst msg).
-  Notation gp := (gpath net nat (step lst msg cap)).
   Notation exch := (exch St G steq misfit expo draw).
   Notation do_pair := (do_pair St G steq misfit expo draw).
   Notation slave_actions := (slave_actions St G steq misfit).
@@ -220,24 +297,6 @@ Section Run.
   Notation total_steps := (total_steps sched I exchange).
   Notation emptyq := (fun _ _ : nat => @nil msg).
   Notation updp := (updp lst msg).
-
-  (* ---- one pair ---- *)
-  Lemma pair_run (ps : list proc) s m a b rs rm : s <> m ->
-    nth_error ps s = Some a -> nth_error ps m = Some b ->
-    prog a = slave_actions s m ++ rs -> prog b = master_actions m s ++ rm ->
-    gp {| procs := ps; qs := emptyq |} 10 {| procs := do_pair ps (s, m); qs := emptyq |}.
-  Proof.
-    intros Hsm Ha Hb Pa Pb.
-    assert (Ls : s < length ps) by (apply nth_error_Some; rewrite Ha; discriminate).
-    assert (Lm : m < length ps) by (apply nth_error_Some; rewrite Hb; discriminate).
-    pose proof (pingpong lst msg cap cap1 ps emptyq s m Hsm Ls Lm a b _ _ _ _ rs _ _ _ _ _ _ rm Pa Pb) as H.
-    cbv zeta in H.
-    rewrite (st2_start lst msg ps emptyq s m a b Ha Hb eq_refl eq_refl) in H.
-    rewrite (st2_end lst msg ps emptyq s m _ _ eq_refl eq_refl) in H.
-    unfold Exchange.do_pair. rewrite Ha, Hb.
-    unfold Exchange.exch. rewrite Pa, Pb. simpl skipn.
-    exact H.
-  Qed.
 
   Lemma do_pair_length ps sm : length (do_pair ps sm) = length ps.
   Proof.
@@ -262,28 +321,6 @@ Section Run.
     exists a b rs rm, nth_error ps (fst sm) = Some a /\ nth_error ps (snd sm) = Some b /\
       prog a = slave_actions (fst sm) (snd sm) ++ rs /\ prog b = master_actions (snd sm) (fst sm) ++ rm.
 
-  Lemma row_run r : forall ps, NoDup (flat r) -> Forall (pair_ready ps) r ->
-    gp {| procs := ps; qs := emptyq |} (10 * length r) {| procs := fold_left do_pair r ps; qs := emptyq |}.
-  Proof.
-    induction r as [|[s m] r IH]; intros ps Hnd Hr.
-    - simpl. constructor.
-    - cbn [flat] in Hnd. inversion Hnd as [|x l Hs Hnd1]; subst. inversion Hnd1 as [|x l Hm Hnd2]; subst.
-      inversion Hr as [|x l (a & b & rs & rm & Ha & Hb & Pa & Pb) Hrest]; subst. cbn [fst snd] in *.
-      assert (Hsm : s <> m) by (intro E; apply Hs; left; auto).
-      replace (10 * length ((s, m) :: r)) with (10 + 10 * length r) by (simpl; lia).
-      eapply gp_app; [eapply pair_run; eauto|].
-      cbn [fold_left]. apply IH; [exact Hnd2|].
-      rewrite Forall_forall in *. intros [s' m'] Hin.
-      assert (Hfl : In s' (flat r) /\ In m' (flat r)).
-      { clear -Hin. induction r as [|[s0 m0] r IHr]; [destruct Hin|]. simpl. destruct Hin as [E|Hin].
-        - inversion E; subst. auto.
-        - destruct (IHr Hin). auto. }
-      destruct Hfl as [Fs Fm].
-      destruct (Hrest _ Hin) as (a' & b' & rs' & rm' & Ha' & Hb' & Pa' & Pb'). cbn [fst snd] in *.
-      exists a', b', rs', rm'. cbn [fst snd].
-      rewrite !do_pair_other; auto.
-      all: intro E; subst; try (apply Hs; right; assumption); try (apply Hm; assumption).
-  Qed.
 
   (* what a row does to the program of each chain *)
   Definition taken (r : row) (i : nat) : nat :=
@@ -364,64 +401,45 @@ Section Run.
   Lemma skipn_len_app {A} (l r : list A) : skipn (length l) (l ++ r) = r.
   Proof. induction l; simpl; auto. Qed.
 
-  Lemma round_run n p k ps r : Inv n p (S k) ps -> row_at p = Some r -> wf_row n r ->
-    gp {| procs := ps; qs := emptyq |} (n + 10 * length (row_of p) + n) {| procs := round_fn p ps; qs := emptyq |}
-    /\ Inv n (S p) k (round_fn p ps).
+  (* the programs after one proposal of all chains (no execution involved) *)
+  Lemma round_stage_progs n p k ps r : Inv n p (S k) ps -> row_at p = Some r -> wf_row n r ->
+    let psA := map (adv lst msg) ps in let psB := fold_left do_pair r psA in
+    (forall i pr, nth_error psA i = Some pr -> prog pr = comm i p ++ ALocal (do_record St G) :: progs_from i (S p) k) /\
+    length psA = n /\
+    (forall i pr, nth_error psB i = Some pr -> prog pr = ALocal (do_record St G) :: progs_from i (S p) k) /\
+    length psB = n.
   Proof.
-    intros [Hlen Hprog] Er [Hnd Hlt].
-    assert (Ero : row_of p = r) by (unfold Exchange.row_of; rewrite Er; reflexivity).
-    unfold Exchange.round_fn. rewrite Ero.
-    set (psA := map (adv lst msg) ps). set (psB := fold_left do_pair r psA).
-    (* programs after the transitions *)
+    intros [Hlen Hprog] Er [Hnd Hlt] psA psB.
     assert (PA : forall i pr, nth_error psA i = Some pr -> prog pr = comm i p ++ ALocal (do_record St G) :: progs_from i (S p) k).
     { intros i pr H. destruct (map_adv_nth _ _ _ H) as (pr0 & H0 & ->).
       pose proof (Hprog _ _ H0) as P0. simpl in P0. unfold adv. rewrite P0. simpl.
       rewrite <- app_assoc. reflexivity. }
     assert (LA : length psA = n) by (unfold psA; rewrite map_length; exact Hlen).
-    (* programs after the row *)
     assert (PB : forall i pr, nth_error psB i = Some pr -> prog pr = ALocal (do_record St G) :: progs_from i (S p) k).
     { intros i pr H.
       destruct (row_progs r psA ltac:(split; [exact Hnd|rewrite LA; exact Hlt]) i pr H) as (pr0 & H0 & P0).
       rewrite P0, (PA _ _ H0), <- (comm_taken p r i Er). apply skipn_len_app. }
     assert (LB : length psB = n) by (unfold psB; rewrite fold_pairs_length; exact LA).
-    split.
-    - eapply gp_app; [eapply gp_app|].
-      + rewrite <- Hlen. apply locals_run_all.
-        rewrite Forall_forall. intros pr Hin. destruct (In_nth_error _ _ Hin) as [i Hi].
-        pose proof (Hprog _ _ Hi) as P0. simpl in P0. unfold head_local. rewrite P0. eexists _, _. reflexivity.
-      + fold psA. apply row_run; [exact Hnd|].
-        rewrite Forall_forall. intros [s m] Hin.
-        destruct (role_in r Hnd s m Hin) as [Rs Rm].
-        assert (Fs : In s (flat r) /\ In m (flat r)).
-        { clear -Hin. induction r as [|[s1 m1] r IHr]; [destruct Hin|]. simpl. destruct Hin as [E|Hin].
-          - inversion E; subst. auto.
-          - destruct (IHr Hin). auto. }
-        rewrite Forall_forall in Hlt. destruct Fs as [Fs Fm].
-        destruct (nth_error psA s) as [a|] eqn:Ea; [|apply nth_error_None in Ea; specialize (Hlt _ Fs); lia].
-        destruct (nth_error psA m) as [b|] eqn:Eb; [|apply nth_error_None in Eb; specialize (Hlt _ Fm); lia].
-        exists a, b. cbn [fst snd].
-        pose proof (PA _ _ Ea) as Pa. pose proof (PA _ _ Eb) as Pb.
-        unfold Exchange.comm in Pa, Pb. rewrite Er in Pa, Pb. rewrite Rs in Pa. rewrite Rm in Pb.
-        eexists _, _. repeat split; eauto.
-      + fold psB. rewrite <- LB at 1. apply locals_run_all.
-        rewrite Forall_forall. intros pr Hin. destruct (In_nth_error _ _ Hin) as [i Hi].
-        unfold head_local. rewrite (PB _ _ Hi). eexists _, _. reflexivity.
-    - split; [rewrite map_length; exact LB|].
-      intros i pr H. destruct (map_adv_nth _ _ _ H) as (pr0 & H0 & ->).
-      unfold adv. rewrite (PB _ _ H0). reflexivity.
+    auto.
   Qed.
 
-  (* ---- the whole run ---- *)
-  Lemma rounds_run n : forall k p ps, Inv n p k ps -> sched_ok sched I exchange n (p + k) ->
-    gp {| procs := ps; qs := emptyq |} (total_steps n p k) {| procs := rounds p k ps; qs := emptyq |}
-    /\ Inv n (p + k) 0 (rounds p k ps).
+  Lemma round_next_inv n p k ps r : Inv n p (S k) ps -> row_at p = Some r -> wf_row n r -> Inv n (S p) k (round_fn p ps).
+  Proof.
+    intros Hinv Er Hwf. destruct (round_stage_progs n p k ps r Hinv Er Hwf) as (_ & _ & PB & LB).
+    unfold Exchange.round_fn. replace (row_of p) with r by (unfold Exchange.row_of; rewrite Er; reflexivity).
+    split; [rewrite map_length; exact LB|].
+    intros i pr H. destruct (map_adv_nth _ _ _ H) as (pr0 & H0 & ->).
+    unfold adv. rewrite (PB _ _ H0). reflexivity.
+  Qed.
+
+  Lemma rounds_inv n : forall k p ps, Inv n p k ps -> sched_ok sched I exchange n (p + k) -> Inv n (p + k) 0 (rounds p k ps).
   Proof.
     induction k as [|k IH]; intros p ps Hinv Hok.
-    - simpl. rewrite Nat.add_0_r. split; [constructor|exact Hinv].
+    - simpl. rewrite Nat.add_0_r. exact Hinv.
     - destruct (Hok p ltac:(lia)) as (r & Er & Hwf).
-      destruct (round_run n p k ps r Hinv Er Hwf) as [Hp Hinv'].
-      destruct (IH (S p) (round_fn p ps) Hinv' ltac:(replace (S p + k) with (p + S k) by lia; exact Hok)) as [Hp' Hfin].
-      simpl. split; [eapply gp_app; eauto|]. replace (p + S k) with (S p + k) by lia. exact Hfin.
+      pose proof (round_next_inv n p k ps r Hinv Er Hwf) as Hinv'.
+      simpl. replace (p + S k) with (S p + k) by lia.
+      apply IH; [exact Hinv'|]. replace (S p + k) with (p + S k) by lia. exact Hok.
   Qed.
 
   Lemma combine_seq_nth {A} (l : list A) : forall b i j x, nth_error (combine (seq b (length l)) l) i = Some (j, x) -> j = b + i.
@@ -462,24 +480,175 @@ Section Run.
   Definition final_net (ls : list lst) (P : nat) : net :=
     {| procs := rounds 0 P (procs (init_net ls P)); qs := emptyq |}.
 
-  (* the sequential run is an execution of the network and finishes every chain *)
-  Theorem canonical_run (ls : list lst) P : sched_ok sched I exchange (length ls) P ->
-    gp (init_net ls P) (total_steps (length ls) 0 P) (final_net ls P) /\ all_done lst msg (final_net ls P) = true.
-  Proof.
-    intros Hok.
-    destruct (rounds_run (length ls) P 0 _ (init_inv ls P) Hok) as [Hp Hinv].
-    split; [exact Hp|]. eapply inv0_done; eauto.
-  Qed.
+  (* ---------------------------------------------------------------------------------------------- *)
+  (* the sequential run is an execution -- for any step relation that can run a block of local      *)
+  (* actions and one exchange of a pair (instantiated below with buffered and with synchronous pipes) *)
+  (* ---------------------------------------------------------------------------------------------- *)
+  Section Canon.
+    Variable stp : net -> nat -> net -> Prop.
+    Variable cpair : nat.
+    Notation gp := (gpath net nat stp).
+    Hypothesis H_locals : forall ps, Forall (head_local lst msg) ps ->
+      gp {| procs := ps; qs := emptyq |} (length ps) {| procs := map (adv lst msg) ps; qs := emptyq |}.
+    Hypothesis H_pair : forall (ps : list proc) s m a b rs rm, s <> m ->
+      nth_error ps s = Some a -> nth_error ps m = Some b ->
+      prog a = slave_actions s m ++ rs -> prog b = master_actions m s ++ rm ->
+      gp {| procs := ps; qs := emptyq |} cpair {| procs := do_pair ps (s, m); qs := emptyq |}.
 
-  (* every interleaving: bounded length, can only stop in the final state of the sequential run *)
-  Theorem all_interleavings (ls : list lst) P : sched_ok sched I exchange (length ls) P ->
-    forall k u, gp (init_net ls P) k u ->
-      k <= total_steps (length ls) 0 P /\
-      (gterminal net nat (step lst msg cap) u -> k = total_steps (length ls) 0 P /\ u = final_net ls P).
-  Proof.
-    intros Hok k u Hu. destruct (canonical_run ls P Hok) as [Hp Hd].
-    exact (kahn_unique lst msg cap _ _ u _ k Hp (all_done_terminal lst msg cap _ Hd) Hu).
-  Qed.
+    Lemma row_run r : forall ps, NoDup (flat r) -> Forall (pair_ready ps) r ->
+      gp {| procs := ps; qs := emptyq |} (cpair * length r) {| procs := fold_left do_pair r ps; qs := emptyq |}.
+    Proof.
+      induction r as [|[s m] r IH]; intros ps Hnd Hr.
+      - simpl. rewrite Nat.mul_0_r. constructor.
+      - cbn [flat] in Hnd. inversion Hnd as [|x l Hs Hnd1]; subst. inversion Hnd1 as [|x l Hm Hnd2]; subst.
+        inversion Hr as [|x l (a & b & rs & rm & Ha & Hb & Pa & Pb) Hrest]; subst. cbn [fst snd] in *.
+        assert (Hsm : s <> m) by (intro E; apply Hs; left; auto).
+        replace (cpair * length ((s, m) :: r)) with (cpair + cpair * length r) by (simpl; lia).
+        eapply gpath_app; [eapply H_pair; eauto|].
+        cbn [fold_left]. apply IH; [exact Hnd2|].
+        rewrite Forall_forall in *. intros [s' m'] Hin.
+        assert (Hfl : In s' (flat r) /\ In m' (flat r)).
+        { clear -Hin. induction r as [|[s0 m0] r IHr]; [destruct Hin|]. simpl. destruct Hin as [E|Hin].
+          - inversion E; subst. auto.
+          - destruct (IHr Hin). auto. }
+        destruct Hfl as [Fs Fm].
+        destruct (Hrest _ Hin) as (a' & b' & rs' & rm' & Ha' & Hb' & Pa' & Pb'). cbn [fst snd] in *.
+        exists a', b', rs', rm'. cbn [fst snd].
+        rewrite !do_pair_other; auto.
+        all: intro E; subst; try (apply Hs; right; assumption); try (apply Hm; assumption).
+    Qed.
+
+    Lemma round_run n p k ps r : Inv n p (S k) ps -> row_at p = Some r -> wf_row n r ->
+      gp {| procs := ps; qs := emptyq |} (n + cpair * length (row_of p) + n) {| procs := round_fn p ps; qs := emptyq |}.
+    Proof.
+      intros Hinv Er Hwf. destruct (round_stage_progs n p k ps r Hinv Er Hwf) as (PA & LA & PB & LB).
+      destruct Hinv as [Hlen Hprog]. destruct Hwf as [Hnd Hlt].
+      assert (Ero : row_of p = r) by (unfold Exchange.row_of; rewrite Er; reflexivity).
+      unfold Exchange.round_fn. rewrite Ero.
+      set (psA := map (adv lst msg) ps) in *. set (psB := fold_left do_pair r psA) in *.
+      eapply gpath_app; [eapply gpath_app|].
+      - rewrite <- Hlen. apply H_locals.
+        rewrite Forall_forall. intros pr Hin. destruct (In_nth_error _ _ Hin) as [i Hi].
+        pose proof (Hprog _ _ Hi) as P0. simpl in P0. unfold head_local. rewrite P0. eexists _, _. reflexivity.
+      - apply row_run; [exact Hnd|].
+        rewrite Forall_forall. intros [s m] Hin.
+        destruct (role_in r Hnd s m Hin) as [Rs Rm].
+        assert (Fs : In s (flat r) /\ In m (flat r)).
+        { clear -Hin. induction r as [|[s1 m1] r IHr]; [destruct Hin|]. simpl. destruct Hin as [E|Hin].
+          - inversion E; subst. auto.
+          - destruct (IHr Hin). auto. }
+        rewrite Forall_forall in Hlt. destruct Fs as [Fs Fm].
+        destruct (nth_error psA s) as [a|] eqn:Ea; [|apply nth_error_None in Ea; specialize (Hlt _ Fs); lia].
+        destruct (nth_error psA m) as [b|] eqn:Eb; [|apply nth_error_None in Eb; specialize (Hlt _ Fm); lia].
+        exists a, b. cbn [fst snd].
+        pose proof (PA _ _ Ea) as Pa. pose proof (PA _ _ Eb) as Pb.
+        unfold Exchange.comm in Pa, Pb. rewrite Er in Pa, Pb. rewrite Rs in Pa. rewrite Rm in Pb.
+        eexists _, _. repeat split; eauto.
+      - rewrite <- LB at 1. apply H_locals.
+        rewrite Forall_forall. intros pr Hin. destruct (In_nth_error _ _ Hin) as [i Hi].
+        unfold head_local. rewrite (PB _ _ Hi). eexists _, _. reflexivity.
+    Qed.
+
+    Lemma rounds_run n : forall k p ps, Inv n p k ps -> sched_ok sched I exchange n (p + k) ->
+      gp {| procs := ps; qs := emptyq |} (total_steps cpair n p k) {| procs := rounds p k ps; qs := emptyq |}.
+    Proof.
+      induction k as [|k IH]; intros p ps Hinv Hok.
+      - simpl. constructor.
+      - destruct (Hok p ltac:(lia)) as (r & Er & Hwf).
+        pose proof (round_run n p k ps r Hinv Er Hwf) as Hp.
+        pose proof (round_next_inv n p k ps r Hinv Er Hwf) as Hinv'.
+        pose proof (IH (S p) (round_fn p ps) Hinv' ltac:(replace (S p + k) with (p + S k) by lia; exact Hok)) as Hp'.
+        simpl. eapply gpath_app; eauto.
+    Qed.
+
+    Theorem canonical_run_gen (ls : list lst) P : sched_ok sched I exchange (length ls) P ->
+      gp (init_net ls P) (total_steps cpair (length ls) 0 P) (final_net ls P) /\ all_done lst msg (final_net ls P) = true.
+    Proof.
+      intros Hok. split.
+      - exact (rounds_run (length ls) P 0 _ (init_inv ls P) Hok).
+      - eapply inv0_done. exact (rounds_inv (length ls) P 0 _ (init_inv ls P) Hok).
+    Qed.
+  End Canon.
+
+  (* ---- buffered pipes of any capacity >= 1 message, or unbounded ---- *)
+  Section Buffered.
+    Variable cap : option nat.
+    Hypothesis cap1 : room msg cap [] = true.
+    Notation gp := (gpath net nat (step lst msg cap)).
+
+    Lemma pair_run (ps : list proc) s m a b rs rm : s <> m ->
+      nth_error ps s = Some a -> nth_error ps m = Some b ->
+      prog a = slave_actions s m ++ rs -> prog b = master_actions m s ++ rm ->
+      gp {| procs := ps; qs := emptyq |} 10 {| procs := do_pair ps (s, m); qs := emptyq |}.
+    Proof.
+      intros Hsm Ha Hb Pa Pb.
+      assert (Ls : s < length ps) by (apply nth_error_Some; rewrite Ha; discriminate).
+      assert (Lm : m < length ps) by (apply nth_error_Some; rewrite Hb; discriminate).
+      pose proof (pingpong lst msg cap cap1 ps emptyq s m Hsm Ls Lm a b _ _ _ _ rs _ _ _ _ _ _ rm Pa Pb) as H.
+      cbv zeta in H.
+      rewrite (st2_start lst msg ps emptyq s m a b Ha Hb eq_refl eq_refl) in H.
+      rewrite (st2_end lst msg ps emptyq s m _ _ eq_refl eq_refl) in H.
+      unfold Exchange.do_pair. rewrite Ha, Hb.
+      unfold Exchange.exch. rewrite Pa, Pb. simpl skipn.
+      exact H.
+    Qed.
+
+    Theorem canonical_run (ls : list lst) P : sched_ok sched I exchange (length ls) P ->
+      gp (init_net ls P) (total_steps 10 (length ls) 0 P) (final_net ls P) /\ all_done lst msg (final_net ls P) = true.
+    Proof.
+      apply (canonical_run_gen (step lst msg cap) 10).
+      - intros ps H. exact (locals_run_all lst msg cap emptyq ps H).
+      - exact pair_run.
+    Qed.
+
+    (* every interleaving: bounded length, can only stop in the final state of the sequential run *)
+    Theorem all_interleavings (ls : list lst) P : sched_ok sched I exchange (length ls) P ->
+      forall k u, gp (init_net ls P) k u ->
+        k <= total_steps 10 (length ls) 0 P /\
+        (gterminal net nat (step lst msg cap) u -> k = total_steps 10 (length ls) 0 P /\ u = final_net ls P).
+    Proof.
+      intros Hok k u Hu. destruct (canonical_run ls P Hok) as [Hp Hd].
+      exact (kahn_unique lst msg cap _ _ u _ k Hp (all_done_terminal lst msg cap _ Hd) Hu).
+    Qed.
+  End Buffered.
+
+  (* ---- synchronous pipes (send returns when the message has been received) ---- *)
+  Section Synchronous.
+    Notation gp := (gpath net nat (sstep lst msg)).
+
+    Lemma pair_run_sync (ps : list proc) s m a b rs rm : s <> m ->
+      nth_error ps s = Some a -> nth_error ps m = Some b ->
+      prog a = slave_actions s m ++ rs -> prog b = master_actions m s ++ rm ->
+      gp {| procs := ps; qs := emptyq |} 6 {| procs := do_pair ps (s, m); qs := emptyq |}.
+    Proof.
+      intros Hsm Ha Hb Pa Pb.
+      assert (Ls : s < length ps) by (apply nth_error_Some; rewrite Ha; discriminate).
+      assert (Lm : m < length ps) by (apply nth_error_Some; rewrite Hb; discriminate).
+      pose proof (spingpong lst msg ps emptyq s m Hsm Ls Lm a b _ _ _ _ rs _ _ _ _ _ _ rm Pa Pb) as H.
+      cbv zeta in H.
+      rewrite (sst_start lst msg ps emptyq s m a b Ha Hb) in H.
+      unfold Exchange.do_pair. rewrite Ha, Hb.
+      unfold Exchange.exch. rewrite Pa, Pb. simpl skipn.
+      exact H.
+    Qed.
+
+    Theorem canonical_run_sync (ls : list lst) P : sched_ok sched I exchange (length ls) P ->
+      gp (init_net ls P) (total_steps 6 (length ls) 0 P) (final_net ls P) /\ all_done lst msg (final_net ls P) = true.
+    Proof.
+      apply (canonical_run_gen (sstep lst msg) 6).
+      - intros ps H. exact (slocals_run_all lst msg emptyq ps H).
+      - exact pair_run_sync.
+    Qed.
+
+    Theorem all_interleavings_sync (ls : list lst) P : sched_ok sched I exchange (length ls) P ->
+      forall k u, gp (init_net ls P) k u ->
+        k <= total_steps 6 (length ls) 0 P /\
+        (gterminal net nat (sstep lst msg) u -> k = total_steps 6 (length ls) 0 P /\ u = final_net ls P).
+    Proof.
+      intros Hok k u Hu. destruct (canonical_run_sync ls P Hok) as [Hp Hd].
+      exact (kahn_unique_sync lst msg _ _ u _ k Hp (all_done_terminal_sync lst msg _ Hd) Hu).
+    Qed.
+  End Synchronous.
 
   (* ---- the computable guard implies the guard ---- *)
   Lemma nodupb_sound l : nodupb l = true -> NoDup l.
@@ -639,7 +808,7 @@ Section Run.
     - simpl. rewrite !Nat.add_0_r. split; [exact Hinv|exact HG].
     - destruct (Hok p ltac:(lia)) as (r & Er & Hwf).
       change (S k + k') with (S (k + k')) in Hinv.
-      destruct (round_run n p (k + k') ps r Hinv Er Hwf) as [_ Hinv'].
+      pose proof (round_next_inv n p (k + k') ps r Hinv Er Hwf) as Hinv'.
       assert (HG' : forall i pr, nth_error (round_fn p ps) i = Some pr -> Good (S c) i (loc pr)).
       { apply (round_inv (Good c) (Good c) (Good (S c)) n p (k + k') ps r Hinv Er Hwf); [| | |exact HG].
         - intros i l (Ho & Hf & Hl). unfold Good, Own, do_trans. simpl. repeat split; auto.
